@@ -32,7 +32,6 @@ package wrappers
 
 import (
 	"fmt"
-	"os"
 	"path/filepath"
 	"sort"
 	"strconv"
@@ -480,10 +479,9 @@ func c27Only(viols []c27Viol, clauses ...string) bool {
 	return true
 }
 
-// c27AssumeKnown lets a run continue past a reported finding before the lead has
-// decided about it (VERIF_C27_ASSUME_KNOWN=F-C27-1,F-C27-2); never set by ./check.
+// c27AssumeKnown: only KNOWN_FINDINGS.jsonl decides what is known (no env switch).
 func c27AssumeKnown(fp string) bool {
-	return c27In(fp, strings.Split(os.Getenv("VERIF_C27_ASSUME_KNOWN"), ","))
+	return verifkit.IsKnown("C27", fp)
 }
 
 // c27Verdict turns violations into the error returned by Run.  Two defects of the
